@@ -313,9 +313,8 @@ def extra(tier, seed, stats):
               'points': 240 if tier == 'quick' else 800,
               'max_volumes': 400 if tier == 'quick' else 3000}
              for nm in names]
-    ctx = multiprocessing.get_context('fork')
-    with ctx.Pool(min(16, os.cpu_count() or 1)) as pool:
-        results = pool.map(_corpus_worker, cases, chunksize=1)
+    from ..runner import pmap
+    results = pmap(_corpus_worker, cases, 16)
     found = {}
     for case, out in results:
         stats.counts['extra_evaluations'] += 1
